@@ -74,9 +74,16 @@ def present(mat, flat_obs):
 def run_c08(ctx, spec):
     pid, tier, seed = ctx["pid"], ctx["tier"], ctx["seed"]
     ncases, nops = spec["sizes"][tier]
-    cfg = dict(traj_fields={"error"}, resync_fields=set(), scan_bias=0.35)
-    report, bad, cases, _ = dyn.run_stream(pid, seed, ncases, nops, cfg, jobs=12)
+    cfg = dict(traj_fields={"error"}, resync_fields={"disc"}, scan_bias=0.35)
+    report, bad, cases, rdiffs = dyn.run_stream(pid, seed, ncases, nops, cfg, jobs=12)
     out = base_outcome(report)
+    # which hosts a subnet scan reports (and therefore reveals) is prescribed by the scenario's topology, not by
+    # whatever the implementation's result says: compared per step with the model from the implementation's pre-state
+    for c, i, f, iv, mv, r in rdiffs[:3]:
+        out["violations"].append(viol(pid, "a subnet scan reports / reveals other hosts than those of the subnets "
+                                           "connected to the scanning host's subnet", kind="obs-record", scenario=c["sd"],
+                                      modes=c["modes"], history=c["ops"][:i + 1], op_index=i, impl=str(iv)[:600],
+                                      prescribed=str(mv)[:600]))
     out["rule"] = ("every observation returned by reset/step/generative_step in random histories under random mode "
                    "combinations is compared entry by entry (2-D and 1-D) with the model's get_observation / "
                    "initial_observation evaluated on the implementation's own next state, action and result; "
